@@ -257,6 +257,16 @@ class OpenModel:
                     if truth_eq:
                         out.add("eof_reached")
         pe = origin_place_expr(g, o)
+        if pe is not None and v == "0":
+            # `match file.read_at(..)? { 0 => .. }` / `match size.checked_sub(start) { Some(0) => .. }`: the integer switch form of `== 0`
+            ps = strip_ids(pe)
+            while isinstance(ps, tuple) and ps and ps[0] in ("cast",):
+                ps = ps[1]
+            if isinstance(ps, tuple) and ps and ps[0] == "okval":
+                if call_is(ps[1], r"FileExt>?::read_at$|io::Read::read$"):
+                    out.add("eof_reached")
+                elif call_is(ps[1], r"::checked_sub$") and contains(ps[1], lambda z: call_is(z, r"fs::Metadata::len$")):
+                    out.add("eof_reached")
         if pe is not None:
             pe = strip_ids(pe)
             if isinstance(pe, tuple) and pe[0] == "var" and v == "None":
